@@ -149,11 +149,20 @@ def gen_cases(rng, ctx):
         model = line("c07_run", [[T]] + b.ops)
         cases.append(Case(impl, model, kind="live:" + fam, nontrivial=True,
                           meta={"ops": b.ops, "gauge": b.expect_gauge}))
+    # the multiplexer through the real endpoint (Core::listen): CONNECT _udp2 over HTTP/1.1-TLS, HTTP/2-TLS, HTTP/3-QUIC
+    for proto in (1, 2, 3):
+        for flows_, rounds, ln in ((3, 2, 20), (4, 5, 1200), (1, 1, 0)) + (((6, 6, 600), (2, 20, 64)) if thorough else ()):
+            l = line("c07_front", [[proto, flows_, rounds, ln]])
+            cases.append(Case(l, None, kind="live:endpoint-h%d" % proto, nontrivial=flows_ > 1,
+                              meta={"front_udp": True, "proto": proto, "flows": flows_, "rounds": rounds, "len": ln}))
     # the SOCKS5 multiplexer (socks5_forwarder.rs): CONNECT _udp2 through the real endpoint with a SOCKS5 upstream; each client source
     # address gets its own association with a scripted SOCKS5 server; every flow's reply has to come back, labelled for its flow
     for ext, n_, ln in ((0, 3, 20), (1, 5, 600), (0, 1, 1), (0, 8, 64)) + (((1, 12, 1200), (0, 6, 1)) if thorough else ()):
         l = line("c15_udp_front", [[ext, n_, ln, 0]])
         cases.append(Case(l, None, kind="live:socks5-associations", nontrivial=n_ > 1, meta={"socks_udp": True, "n": n_, "len": ln, "ext": ext}))
+    # one client source talking to two destinations through the SOCKS5 upstream: the first flow expires, the second goes on
+    l = line("c15_udp_front", [[0, 0, 0, 0, 1]])
+    cases.append(Case(l, None, kind="live:socks5-shared-source", nontrivial=True, meta={"socks_shared": True}))
     # an error on the reading side of a flow's socket (the peer answered and went away, the client sent once more)
     for t in ([300, 200, 500] if thorough else [300, 200]):
         l = line("c07_read_error", [[t]])
@@ -165,6 +174,29 @@ def judge(case, impl, model, spec, ctx):
     if impl == "999":
         return [("violation", "the multiplexer harness panicked")]
     if impl == "996":
+        return []
+    if case.meta.get("front_udp"):
+        m = case.meta
+        st, peers_got, good, labelled, ports = untok(impl.split()[0])
+        total = m["flows"] * m["rounds"]
+        what = "UDP multiplexer through the real endpoint over HTTP/%d, %d flows x %d datagrams of %d bytes to two echo peers" % (m["proto"], m["flows"], m["rounds"], max(m["len"], 2))
+        if st != 200:
+            return [("disagree", "%s: CONNECT _udp2 answered %d" % (what, st))]
+        if peers_got != total:
+            return [("violation", "%s: the peers received %d of %d datagrams" % (what, peers_got, total))]
+        if ports != m["flows"]:
+            return [("violation", "%s: the peers saw %d outbound source ports for %d flows (one socket per flow)" % (what, ports, m["flows"]))]
+        if good != total or labelled != total:
+            return [("violation", "%s: %d replies came back with the right payload, %d labelled with their flow's addresses, of %d" % (what, good, labelled, total))]
+        return []
+    if case.meta.get("socks_shared"):
+        st, replies, sent = untok(impl.split()[0])
+        what = ("UDP multiplexer over a SOCKS5 upstream, one client source address with two destinations: the first falls silent for four "
+                "UDP timeouts (300 ms) while the second exchanges a datagram every 100 ms")
+        if st != 200:
+            return [("disagree", "%s: CONNECT _udp2 answered %d" % (what, st))]
+        if replies + 2 < sent:
+            return [("violation", "%s: only %d of %d replies on the second flow came back (the expiry of one flow disturbed another)" % (what, replies, sent))]
         return []
     if case.meta.get("socks_udp"):
         m = case.meta
